@@ -70,11 +70,10 @@ func ChanSend[T any](ch chan<- T, v T) {
 		ch <- v
 		return
 	}
-	s := sched
 	ChanStats.Sends++
-	s.yield(t)
+	sched.yield(t)
 	if ch == nil {
-		s.block(t, func() bool { return false }) // send on a nil channel blocks forever
+		sched.block(t, func() bool { return false }) // send on a nil channel blocks forever
 		return
 	}
 	st := chanOf(ch)
@@ -93,10 +92,10 @@ func ChanSend[T any](ch chan<- T, v T) {
 			if sent {
 				joinInto(&st.vc, t.vc)
 				t.vcTick()
-				s.wakeAll()
+				sched.wakeAll()
 				return
 			}
-			s.blockOnce(t)
+			sched.blockOnce(t)
 		}
 	}
 	if st.closed {
@@ -108,7 +107,7 @@ func ChanSend[T any](ch chan<- T, v T) {
 		w.val, w.ok, w.done = v, true, true
 		w.vc = append([]uint64(nil), t.vc...)
 		t.vcTick()
-		s.wakeAll()
+		sched.wakeAll()
 		return
 	}
 	if p := st.selPeer(false, nil); p != nil {
@@ -119,13 +118,13 @@ func ChanSend[T any](ch chan<- T, v T) {
 		p.ss.t.vcJoin(t.vc)
 		p.ss.unregister()
 		t.vcTick()
-		s.wakeAll()
+		sched.wakeAll()
 		return
 	}
 	w := &chanWaiter{t: t, val: v, vc: append([]uint64(nil), t.vc...)}
 	st.sendq = append(st.sendq, w)
 	t.vcTick()
-	s.block(t, func() bool { return w.done || st.closed })
+	sched.block(t, func() bool { return w.done || st.closed })
 	if !w.done {
 		for i, x := range st.sendq {
 			if x == w {
@@ -143,12 +142,11 @@ func ChanRecv2[T any](ch <-chan T) (T, bool) {
 		v, ok := <-ch
 		return v, ok
 	}
-	s := sched
 	ChanStats.Recvs++
-	s.yield(t)
+	sched.yield(t)
 	var zero T
 	if ch == nil {
-		s.block(t, func() bool { return false })
+		sched.block(t, func() bool { return false })
 		return zero, false
 	}
 	st := chanOf(ch)
@@ -168,10 +166,10 @@ func ChanRecv2[T any](ch <-chan T) (T, bool) {
 			}
 			if got {
 				t.vcJoin(st.vc)
-				s.wakeAll()
+				sched.wakeAll()
 				return v, ok
 			}
-			s.blockOnce(t)
+			sched.blockOnce(t)
 		}
 	}
 	if len(st.sendq) > 0 {
@@ -179,7 +177,7 @@ func ChanRecv2[T any](ch <-chan T) (T, bool) {
 		st.sendq = st.sendq[1:]
 		w.done = true
 		t.vcJoin(w.vc)
-		s.wakeAll()
+		sched.wakeAll()
 		if w.val == nil {
 			return zero, true
 		}
@@ -193,7 +191,7 @@ func ChanRecv2[T any](ch <-chan T) (T, bool) {
 	}
 	w := &chanWaiter{t: t}
 	st.recvq = append(st.recvq, w)
-	s.block(t, func() bool {
+	sched.block(t, func() bool {
 		if !w.done && !st.closed {
 			probeClosed(st, ch)
 		}
